@@ -54,6 +54,10 @@ def prop (trace : List (Rec × List Rec)) : Option String := Id.run do
       return some s!"{op.name}: implementation reported {o.map (·.name)}, documented behaviour is {m.map (·.name)}"
     for (a, b) in m.zip o do
       if !Wire.tolEq a b then return some (s!"{op.name}: " ++ fieldDiff a b)
+    -- the battle clock: unchanged by everything but a turn start, which adds the elapsed action value
+    for r in obs do
+      if r.name == "order" && r.has "total" && !Wire.closeF (r.flt "total") s'.totalAV then
+        return some s!"{op.name}: the battle clock reads {r.flt "total"}, documented {s'.totalAV} (the clock before plus the elapsed action value of turn starts only)"
     -- elapsed action value never negative; no gauge below zero
     for r in obs do
       if r.name == "started" && r.flt "av" < 0 then return some "negative elapsed action value"
